@@ -186,6 +186,11 @@ func (vm *vm) run() error {
 				push(strings.Repeat(a, b))
 
 			case instr == opEQ:
+				if _, ok := peek(0).(Block); ok {
+					if _, ok := peek(1).(Block); ok {
+						return vm.runtimeError("EQ: blocks cannot be compared")
+					}
+				}
 				b, a := pop(), pop()
 				push(a == b)
 
